@@ -118,6 +118,7 @@ INDEP_SEEN = []
 def cases(run, rng):
     import twin
     del INDEP_FAIL[:], INDEP_SEEN[:]
+    EXEMPT_SEEN[0] = exemption_sweep()
     for qc in QUERY_CLASSES:
         for lab, _ in shapes(qc):
             independence("shape:" + lab, qc, lambda V, lab=lab, qc=qc: dict(shapes(qc, V))[lab])
@@ -169,17 +170,64 @@ def cases(run, rng):
             yield c
 
 
+EXEMPT_FAIL = []
+
+
+def exemption_sweep():
+    """values exempt by contract are written inline and never listed, at every value position, whatever else they are (a str-mixin or int-mixin
+    enum member IS a str / an int); everything else at the same positions is listed"""
+    import enum, twin
+
+    class IntE(enum.IntEnum):
+        seven = 7
+
+    exempt = [Order.asc, twin.AdvEnum.quote, twin.AdvStrEnum.plain, twin.AdvStrEnum.quote, IntE.seven, "*"]
+    t = P.Table("t")
+    del EXEMPT_FAIL[:]
+    n = 0
+    for qc in QUERY_CLASSES:
+        for x in exempt:
+            pos = {
+                "where": lambda v: qc.from_(t).select(t.a).where(t.b == v).where(t.c == 5),
+                "in-list": lambda v: qc.from_(t).select(t.a).where(t.b.isin([v, 6])),
+                "case-function": lambda v: qc.from_(t).select(P.Case().when(t.a == 1, v).else_(fn.Coalesce(t.b, v)), t.c).where(t.d == 7),
+                "update-set": lambda v: qc.update(t).set(t.a, v).where(t.b == 8),
+                "insert-row": lambda v: qc.into(t).columns("a", "b").insert(v, 9),
+                "not-allowed": lambda v: qc.from_(t).select(T.ValueWrapper(11, allow_parametrize=False)).where(t.b == T.ValueWrapper(v, allow_parametrize=False)).where(t.c == 10),
+            }
+            for pname, f in pos.items():
+                try:
+                    q = f(x)
+                    pz = Parameterizer()
+                    sp = q.get_sql(qc.SQL_CONTEXT.copy(parameterizer=pz))
+                    si = q.get_sql(qc.SQL_CONTEXT)
+                except Exception:
+                    continue
+                n += 1
+                listed = [v for v in pz.values if v is x or (type(v) is type(x) and v == x and not isinstance(x, str)) or (x == "*" and v == "*")]
+                if listed or any(isinstance(v, enum.Enum) for v in pz.values):
+                    EXEMPT_FAIL.append({"kind": "exempt-value-listed", "class": QNAMES[qc], "position": pname, "value": repr(x), "parameterised_sql": sp,
+                                        "values": [repr(v) for v in pz.values], "inline_sql": si})
+    return n
+
+
 class LazyViolations:
     """evaluated after the cases generator has run"""
 
     def __iter__(self):
         return iter([("C04: the parameterised text depends on the values (a parameterised value's text remains in the SQL): %s vs %s"
                       % (f["parameterised_sql_actual_values"][:250], f["parameterised_sql_marker_values"][:250]), dict(f, kind="value-independence"))
-                     for f in INDEP_FAIL])
+                     for f in INDEP_FAIL] +
+                    [("C04: a value that is exempt by contract (%s) is listed as a parameter at position %s under %s: %s with values %s"
+                      % (f["value"], f["position"], f["class"], f["parameterised_sql"][:200], f["values"]), f) for f in EXEMPT_FAIL[:3]])
+
+
+EXEMPT_SEEN = [0]
 
 
 def lazy_cov():
-    return {"value_independence_pairs": len(INDEP_SEEN), "value_independence_failures": len(INDEP_FAIL)}
+    return {"value_independence_pairs": len(INDEP_SEEN), "value_independence_failures": len(INDEP_FAIL), "exempt_value_positions": EXEMPT_SEEN[0],
+            "exempt_values_listed": len(EXEMPT_FAIL)}
 
 
 def check(run: core.Run):
